@@ -121,7 +121,7 @@ Definition pos_eqb (a b : expr * list string) : bool :=
   Nat.eqb (length (snd a)) (length (snd b)) && expr_eqb (positional (snd a) (fst a)) (positional (snd b) (fst b)).
 
 (** the while loop of _register_fn: [name] is the candidate under test, [base_i] the next one;
-    [None] = fuel exhausted (never with fuel = len(functions) + 1: SbmlProofs.pick_total) *)
+    [None] = fuel exhausted (never with fuel = len(functions) + 1: SbmlPick.pick_name_total) *)
 Fixpoint pick_name (fuel : nat) (d : list (string * (expr * list string))) (base : string) (i : nat) (name : string)
               (new : expr * list string) : option string :=
   match lookup name d with
